@@ -41,6 +41,9 @@ package momentum
 //@ ensures[C04] forall kk :: 0 <= kk && kk < len(result3) ==> hor(result3, kk) <= max(hor(highs, kk + (i.IdlePeriod())), max(hor(lows, kk + (i.IdlePeriod())), hor(closings, kk + (i.IdlePeriod()))))
 //@ ensures[C04] forall kk :: 0 <= kk && kk < len(result4) ==> hor(result4, kk) <= max(hor(highs, kk + (i.IdlePeriod())), max(hor(lows, kk + (i.IdlePeriod())), hor(closings, kk + (i.IdlePeriod()))))
 
+// PPO = ((EMA(shortPeriod, prices) - EMA(longPeriod, prices)) / EMA(longPeriod, prices)) * 100 at one bar,
+// Signal = EMA(9, PPO), Histogram = PPO - Signal   (PVO: the same over volumes)
+//@ stream ppoS(c stream, Ps int, ms real, Pl int, ml real)[k] = (emaS(c, Ps, ms, k + Pl - Ps) - emaS(c, Pl, ml, k)) / emaS(c, Pl, ml, k) * 100
 //@ func Ppo.Compute
 //@ requires p.ShortEma.Period >= 1 && p.ShortEma.Period <= p.LongEma.Period && p.SignalEma.Period >= 1 && consumed(closings) == 0
 //@ ensures[C02] len(result0) == max(0, len(closings) - (p.IdlePeriod())) && len(result1) == max(0, len(closings) - (p.IdlePeriod())) && len(result2) == max(0, len(closings) - (p.IdlePeriod()))
@@ -48,6 +51,11 @@ package momentum
 //@ ensures[C04] forall kk :: 0 <= kk && kk < len(result0) ==> hor(result0, kk) <= hor(closings, kk + (p.IdlePeriod()))
 //@ ensures[C04] forall kk :: 0 <= kk && kk < len(result1) ==> hor(result1, kk) <= hor(closings, kk + (p.IdlePeriod()))
 //@ ensures[C04] forall kk :: 0 <= kk && kk < len(result2) ==> hor(result2, kk) <= hor(closings, kk + (p.IdlePeriod()))
+//@ use ema_cong(closingsSplice[0], closings, p.ShortEma.Period, emam(p.ShortEma), _)
+//@ use ema_cong(closingsSplice[1], closings, p.LongEma.Period, emam(p.LongEma), _)
+//@ step[C01] "line" forall j :: 0 <= j && j < len(ppoSplice[0]) ==> ppoSplice[0][j] == ppoS(closings, p.ShortEma.Period, emam(p.ShortEma), p.LongEma.Period, emam(p.LongEma))[j] && res(Duplicate, 2)[1][j] == ppoS(closings, p.ShortEma.Period, emam(p.ShortEma), p.LongEma.Period, emam(p.LongEma))[j] && res(Duplicate, 2)[2][j] == ppoS(closings, p.ShortEma.Period, emam(p.ShortEma), p.LongEma.Period, emam(p.LongEma))[j]
+//@ use ema_cong(ppoSplice[0], ppoS(closings, p.ShortEma.Period, emam(p.ShortEma), p.LongEma.Period, emam(p.LongEma)), p.SignalEma.Period, emam(p.SignalEma), _)
+//@ ensures[C01] "documented" forall k :: 0 <= k && k < len(result0) ==> result0[k] == ppoS(closings, p.ShortEma.Period, emam(p.ShortEma), p.LongEma.Period, emam(p.LongEma))[k + p.SignalEma.Period - 1] && result1[k] == emaS(ppoS(closings, p.ShortEma.Period, emam(p.ShortEma), p.LongEma.Period, emam(p.LongEma)), p.SignalEma.Period, emam(p.SignalEma), k) && result2[k] == ppoS(closings, p.ShortEma.Period, emam(p.ShortEma), p.LongEma.Period, emam(p.LongEma))[k + p.SignalEma.Period - 1] - emaS(ppoS(closings, p.ShortEma.Period, emam(p.ShortEma), p.LongEma.Period, emam(p.LongEma)), p.SignalEma.Period, emam(p.SignalEma), k)
 
 //@ func Pvo.Compute
 //@ requires p.ShortEma.Period >= 1 && p.ShortEma.Period <= p.LongEma.Period && p.SignalEma.Period >= 1 && consumed(volumes) == 0
@@ -56,6 +64,11 @@ package momentum
 //@ ensures[C04] forall kk :: 0 <= kk && kk < len(result0) ==> hor(result0, kk) <= hor(volumes, kk + (p.IdlePeriod()))
 //@ ensures[C04] forall kk :: 0 <= kk && kk < len(result1) ==> hor(result1, kk) <= hor(volumes, kk + (p.IdlePeriod()))
 //@ ensures[C04] forall kk :: 0 <= kk && kk < len(result2) ==> hor(result2, kk) <= hor(volumes, kk + (p.IdlePeriod()))
+//@ use ema_cong(volumesSplice[0], volumes, p.ShortEma.Period, emam(p.ShortEma), _)
+//@ use ema_cong(volumesSplice[1], volumes, p.LongEma.Period, emam(p.LongEma), _)
+//@ step[C01] "line" forall j :: 0 <= j && j < len(pvoSplice[0]) ==> pvoSplice[0][j] == ppoS(volumes, p.ShortEma.Period, emam(p.ShortEma), p.LongEma.Period, emam(p.LongEma))[j] && res(Duplicate, 2)[1][j] == ppoS(volumes, p.ShortEma.Period, emam(p.ShortEma), p.LongEma.Period, emam(p.LongEma))[j] && res(Duplicate, 2)[2][j] == ppoS(volumes, p.ShortEma.Period, emam(p.ShortEma), p.LongEma.Period, emam(p.LongEma))[j]
+//@ use ema_cong(pvoSplice[0], ppoS(volumes, p.ShortEma.Period, emam(p.ShortEma), p.LongEma.Period, emam(p.LongEma)), p.SignalEma.Period, emam(p.SignalEma), _)
+//@ ensures[C01] "documented" forall k :: 0 <= k && k < len(result0) ==> result0[k] == ppoS(volumes, p.ShortEma.Period, emam(p.ShortEma), p.LongEma.Period, emam(p.LongEma))[k + p.SignalEma.Period - 1] && result1[k] == emaS(ppoS(volumes, p.ShortEma.Period, emam(p.ShortEma), p.LongEma.Period, emam(p.LongEma)), p.SignalEma.Period, emam(p.SignalEma), k) && result2[k] == ppoS(volumes, p.ShortEma.Period, emam(p.ShortEma), p.LongEma.Period, emam(p.LongEma))[k + p.SignalEma.Period - 1] - emaS(ppoS(volumes, p.ShortEma.Period, emam(p.ShortEma), p.LongEma.Period, emam(p.LongEma)), p.SignalEma.Period, emam(p.SignalEma), k)
 
 //@ func Qstick.Compute
 //@ requires q.Sma.Period >= 1 && consumed(openings) == 0 && consumed(closings) == 0 && len(openings) == len(closings)
